@@ -19,6 +19,8 @@ import PolyVerif.Model.Obj
     c05.holds.resave <text> <text'>   → `Resaves`: text' (= Write(Read text)) has the faces of text (count, order, positions,
                                         vt/vn where the whole group has them) and the reader accepts text' again
     c05.holds.resave_mixed_shapes …   → same predicate; texts with a group that mixes corner shapes
+    c05.holds.reload <result> <result'> → RoundTripsCarry: the second load (of the saved text) returns the scene of the
+                                        first load (obj_reload); emitted when every group has a face
 -/
 namespace Driver.C05
 open PolyVerif PolyVerif.Obj
@@ -397,6 +399,10 @@ def handle (op : String) (args : List String) : Option String := do
       pure (boolStr (RoundTrips rtF ms gs))
   | "c05.holds.roundtrip_carry" =>
       let ((_, ms), r) ← scene? args
+      let ((gs, _), _) ← result? r
+      pure (boolStr (RoundTripsCarry rtF none ms gs))
+  | "c05.holds.reload" =>
+      let ((ms, _), r) ← result? args
       let ((gs, _), _) ← result? r
       pure (boolStr (RoundTripsCarry rtF none ms gs))
   | "c05.holds.resave" | "c05.holds.resave_mixed_shapes" =>
